@@ -1,5 +1,8 @@
 --------------------------- MODULE MC_RpcRegistry ---------------------------
-(* Three services: A and B register the same message type, C registers two.   *)
+(* Four service types: A and B register the same message type under their own *)
+(* names, C registers two, and A2 registers the other message type under A's  *)
+(* name.                                                                      *)
 EXTENDS RpcRegistry
-HandlesDef == [s \in Services |-> IF s = "C" THEN {"Ping", "Pong"} ELSE {"Ping"}]
+HandlesDef == [s \in Services |-> IF s = "C" THEN {"Ping", "Pong"} ELSE IF s = "A2" THEN {"Pong"} ELSE {"Ping"}]
+NameOfDef == [s \in Services |-> IF s = "A2" THEN "A" ELSE s]
 =============================================================================
